@@ -170,18 +170,24 @@ func (kgdb *KVInterfaceGDB) DelEdge(eid string) error {
 		return fmt.Errorf("Edge Not Found")
 	}
 
-	_, _, sid, did, _, _ := EdgeKeyParse(ekey)
+	_, _, sid, did, label, etype := EdgeKeyParse(ekey)
 
-	skey := SrcEdgeKeyPrefix(kgdb.graph, sid, did, eid)
-	dkey := DstEdgeKeyPrefix(kgdb.graph, sid, did, eid)
+	// the adjacency entries carry the label and type as well; all three keys
+	// go in one transaction so that a crash cannot leave adjacency entries of
+	// an edge that no longer exists
+	skey := SrcEdgeKey(kgdb.graph, sid, did, eid, label, etype)
+	dkey := DstEdgeKey(kgdb.graph, sid, did, eid, label, etype)
 
-	if err := kgdb.kvg.kv.Delete(ekey); err != nil {
-		return err
-	}
-	if err := kgdb.kvg.kv.Delete(skey); err != nil {
-		return err
-	}
-	if err := kgdb.kvg.kv.Delete(dkey); err != nil {
+	err := kgdb.kvg.kv.Update(func(tx kvi.KVTransaction) error {
+		if err := tx.Delete(ekey); err != nil {
+			return err
+		}
+		if err := tx.Delete(skey); err != nil {
+			return err
+		}
+		return tx.Delete(dkey)
+	})
+	if err != nil {
 		return err
 	}
 	kgdb.kvg.ts.Touch(kgdb.graph)
